@@ -155,6 +155,32 @@ def run(ctx: Any, prog: Program) -> None:
                   func='Entity.copy', text='solid copies keep their hidden state')
         ctx.check('C17.N5', not strips, vm, c, f'Entity.copy passes keep_vis={U(strips[0]) if strips else ""} to the copies of its solids: collapse_one copies visible entities with keep_vis=False and '
                   'does not look at their solids, so an individually hidden brush of a visible brush entity would be added to the map as a visible one', func='Entity.copy', text='solid copies keep their hidden state')
+    # which definition an entity gets: EntityDef.engine_def() matches the classname case-insensitively and raises KeyError for an unknown
+    # class.  Letting the lookup decide (try/except KeyError) is exact; a pre-check against the set of known names is only the same thing
+    # if it folds the name as well - the set holds lowercase names, so `Path_Track` would silently get the base-entity fallback and none of
+    # its class-specific keyvalues (names, positions, $variables) would be fixed up.
+    defs_calls = [c for c in ast.walk(co) if isinstance(c, ast.Call) and dotted(c.func) == 'EntityDef.engine_def' and c.args and isinstance(c.args[0], ast.Name)]
+    ctx.shape('C17.N4', len(defs_calls) >= 1, ins, co, 'collapse_one looks the entity class up with EntityDef.engine_def(<classname>)', func='collapse_one', text='class definition lookup')
+    for c in defs_calls:
+        cls_var = c.args[0].id
+        p_: Optional[ast.AST] = ins.parents.get(c)
+        child_: ast.AST = c
+        verdict_: Optional[bool] = None
+        why_ = ''
+        while p_ is not None and p_ is not co and verdict_ is None:
+            if isinstance(p_, ast.Try) and any(child_ is st or any(child_ is x for x in ast.walk(st)) for st in p_.body) and any(h.type is None or 'KeyError' in U(h.type) or 'LookupError' in U(h.type) for h in p_.handlers):
+                verdict_ = True
+            elif isinstance(p_, ast.If) and any(child_ is st or any(child_ is x for x in ast.walk(st)) for st in p_.body):
+                t_ = p_.test
+                if isinstance(t_, ast.Compare) and len(t_.ops) == 1 and isinstance(t_.ops[0], ast.In) and any(isinstance(x, ast.Name) and x.id == cls_var for x in ast.walk(t_.left)):
+                    folded_ = isinstance(t_.left, ast.Call) and isinstance(t_.left.func, ast.Attribute) and t_.left.func.attr in ('casefold', 'lower')
+                    verdict_ = folded_
+                    why_ = U(t_)
+            child_, p_ = p_, ins.parents.get(p_)
+        ctx.shape('C17.N4', verdict_ is not None, ins, c, 'the class lookup is decided by try/except KeyError or by a membership pre-check on the classname', func='collapse_one', text='class definition lookup')
+        if verdict_ is not None:
+            ctx.check('C17.N4', verdict_, ins, c, f'collapse_one only asks EntityDef.engine_def({cls_var}) when `{why_}`: engine_def() matches case-insensitively, this membership test does not (the known names are lowercase), so an entity '
+                      'spelled `Path_Track` is treated as an unknown class and its class-specific keyvalues are neither renamed, moved nor substituted', func='collapse_one', text='class definition lookup')
     # ---- N2 --------------------------------------------------------------------------------------------
     ca = ins.func('collapse_all')
     outer = [s for s in ca.body if isinstance(s, ast.For)]
@@ -517,6 +543,8 @@ def n6_substitute(ctx: Any, vm: Any) -> None:
 
 
 MUTANTS = [
+    {'id': 'class_lookup_prechecked_unfolded', 'file': 'instancing.py', 'find': "            try:\n                ent_type = EntityDef.engine_def(classname)\n            except KeyError:\n", 'replace': "            if classname in EntityDef.engine_classes():\n                ent_type = EntityDef.engine_def(classname)\n            else:\n", 'expect': 'C17.N4'},
+    {'id': 'ok_class_lookup_prechecked_folded', 'file': 'instancing.py', 'find': "            try:\n                ent_type = EntityDef.engine_def(classname)\n            except KeyError:\n", 'replace': "            if classname.casefold() in EntityDef.engine_classes():\n                ent_type = EntityDef.engine_def(classname)\n            else:\n", 'expect': None},
     {'id': 'entity_copy_unhides_solids', 'file': 'vmf.py', 'find': "            solid.copy(vmf_file=vmf_file, side_mapping=side_mapping)\n", 'replace': "            solid.copy(vmf_file=vmf_file, side_mapping=side_mapping, keep_vis=keep_vis)\n", 'expect': 'C17.N5'},
     {'id': 'ok_entity_copy_keeps_vis_explicit', 'file': 'vmf.py', 'find': "            solid.copy(vmf_file=vmf_file, side_mapping=side_mapping)\n", 'replace': "            solid.copy(vmf_file=vmf_file, side_mapping=side_mapping, keep_vis=True)\n", 'expect': None},
     {'id': 'substitute_skips_empty_table', 'file': 'vmf.py', 'find': "        if '$' not in text:  # Early out, cannot substitute.", 'replace': "        if '$' not in text or not self._fixup:  # Early out, cannot substitute.", 'expect': 'C17.N6'},
